@@ -151,6 +151,15 @@ func evalProgram(p progSpec, stepIdx int, req *fnv1.RunFunctionRequest) *fnv1.Ru
 		rsp.Requirements = &fnv1.Requirements{ExtraResources: map[string]*fnv1.ResourceSelector{"gold": byLabels}}
 	case "absent":
 		rsp.Requirements = &fnv1.Requirements{ExtraResources: map[string]*fnv1.ResourceSelector{"none": byName("does-not-exist")}}
+	case "labels-narrowing":
+		// same requirement name, apiVersion and kind; the label selector gets NARROWER once the
+		// first answer arrived: the second answer must only hold what matches the narrower one
+		if _, ok := req.GetExtraResources()["gold"]; !ok {
+			rsp.Requirements = &fnv1.Requirements{ExtraResources: map[string]*fnv1.ResourceSelector{"gold": byLabels}}
+		} else {
+			narrow := &fnv1.ResourceSelector{ApiVersion: "nop.ex.org/v1", Kind: "EnvThing", Match: &fnv1.ResourceSelector_MatchLabels{MatchLabels: &fnv1.MatchLabels{Labels: map[string]string{"tier": "gold", "zone": "a"}}}}
+			rsp.Requirements = &fnv1.Requirements{ExtraResources: map[string]*fnv1.ResourceSelector{"gold": narrow}}
+		}
 	case "labels-then-name":
 		// first asks by labels; once its context says so, asks only for one by name: the
 		// resources supplied for the dropped requirement must disappear from the next request
@@ -192,6 +201,7 @@ type stepCfg struct {
 type tcase struct {
 	Steps    []stepCfg `json:"steps"`
 	EnvGold  []string  `json:"envGold"` // which EnvThings carry tier=gold
+	EnvZoneA []string  `json:"envZoneA"` // which EnvThings carry zone=a
 	FlipRev  int       `json:"flipRev"` // function index whose active revision flips before reconcile 3 (-1 none)
 	MoveEP   int       `json:"moveEndpoint"` // function index whose active revision's endpoint changes before reconcile 3 (-1)
 	XRSecret bool      `json:"xrSecret"`
@@ -222,7 +232,7 @@ func genCase(c *kit.Ctx, i int) tcase {
 			p.CtxKey = fmt.Sprintf("k%d", r.IntN(3))
 		}
 		p.DropCtx = r.IntN(6) == 0
-		p.Req = []string{"", "", "name", "labels", "name-then-labels", "absent", "labels-then-name"}[r.IntN(7)]
+		p.Req = []string{"", "", "name", "labels", "name-then-labels", "absent", "labels-then-name", "labels-narrowing"}[r.IntN(8)]
 		p.Result = []string{"", "normal", "warning"}[r.IntN(3)]
 		if r.IntN(3) == 0 {
 			p.Cond = fmt.Sprintf("Custom%d", r.IntN(2))
@@ -231,8 +241,11 @@ func genCase(c *kit.Ctx, i int) tcase {
 		t.Steps = append(t.Steps, stepCfg{Prog: p, Input: r.IntN(2) == 0, Creds: r.IntN(3) == 0, BetaOnly: r.IntN(5) == 0})
 	}
 	for _, e := range []string{"env-1", "env-2", "env-3"} {
-		if r.IntN(2) == 0 {
+		if r.IntN(3) > 0 {
 			t.EnvGold = append(t.EnvGold, e)
+		}
+		if r.IntN(2) == 0 {
+			t.EnvZoneA = append(t.EnvZoneA, e)
 		}
 	}
 	if r.IntN(3) == 0 {
@@ -483,10 +496,19 @@ func (w *worker) run(i int, name string) {
 	}
 	for _, e := range []string{"env-1", "env-2", "env-3"} {
 		o := map[string]any{"apiVersion": "nop.ex.org/v1", "kind": "EnvThing", "metadata": map[string]any{"name": e}, "spec": map[string]any{"v": e}}
+		ls := map[string]any{}
 		for _, g := range t.EnvGold {
 			if g == e {
-				o["metadata"].(map[string]any)["labels"] = map[string]any{"tier": "gold"}
+				ls["tier"] = "gold"
 			}
+		}
+		for _, g := range t.EnvZoneA {
+			if g == e {
+				ls["zone"] = "a"
+			}
+		}
+		if len(ls) > 0 {
+			o["metadata"].(map[string]any)["labels"] = ls
 		}
 		world.MustSeed("user", o)
 	}
